@@ -45,8 +45,8 @@ Record Inv (nv : nat) (s : st) (h : list trec) (d : N) : Prop := mkInv {
                     stream_from (44 * committed s) (fstream (cml s)) /\
                     concat_w (fstream (cml s)) = entries (skipn (N.to_nat (committed s)) h) /\
                     f_offset (cml s) = 44 * precommitted s
-          | PV i => pending (cml s) = [] /\ buf (cml s) = [] /\ bufoff (cml s) = 44 * committed s /\
-                    (i <= nv)%nat /\ committed s < precommitted s
+          | PV done => pending (cml s) = [] /\ buf (cml s) = [] /\ bufoff (cml s) = 44 * committed s /\
+                       (NoDup done /\ Forall (fun v => (v < nv)%nat) done) /\ committed s < precommitted s
           | PIdle => pending (cml s) = [] /\ buf (cml s) = [] /\ bufoff (cml s) = 44 * committed s
           end;
   v_aht : AInv (c_thld (s_cfg s)) (aht_of s) /\ asize s <= precommitted s
@@ -152,25 +152,29 @@ Proof.
   destruct (phase_ s) eqn:Ep; cbn [phase_idle andb] in E; try discriminate.
   destruct (N.eqb_spec (precommitted s) (committed s)) as [|Np]; cbn [negb] in E; [discriminate|].
   assert (s' = mkSt (s_cfg s) (txl s) (cml s) (vls s) (ahd s) (ahc s) (committed s) (calh s) (pbuf s)
-                    (palh s) (pts s) (acked s) (PV 0) (inflight s) (asize s) (alatest s) (acnt s)) by congruence.
+                    (palh s) (pts s) (acked s) (PV []) (inflight s) (asize s) (alatest s) (acnt s)) by congruence.
   subst s'. inv_fields I. rewrite Ep in Icph.
   constructor; cbn [s_cfg vls txl cml ahd ahc committed pbuf palh pts acked phase_ asize alatest acnt]; auto.
-  simp_st. fold_p s. destruct Icph as (A & B & C). repeat split; auto; lia.
+  simp_st. fold_p s. destruct Icph as (A & B & C). repeat split; auto; try lia; constructor.
 Qed.
 
-Lemma step_OSyncV nv s h d s' : Inv nv s h d -> step s OSyncV = Ok s' -> Inv nv s' h d.
+Lemma step_OSyncV nv s h d v s' : Inv nv s h d -> step s (OSyncV v) = Ok s' -> Inv nv s' h d.
 Proof.
   intros I E. unfold Protocol.step in E.
-  destruct (phase_ s) as [|i|t] eqn:Ep; try discriminate.
-  destruct (nth_error (vls s) i) as [g|] eqn:En; [|discriminate].
-  assert (s' = mkSt (s_cfg s) (txl s) (cml s) (set_nth (vls s) i (f_sync g)) (ahd s) (ahc s) (committed s)
-                    (calh s) (pbuf s) (palh s) (pts s) (acked s) (PV (S i)) (inflight s) (asize s)
+  destruct (phase_ s) as [|done|t] eqn:Ep; try discriminate.
+  destruct (existsb (Nat.eqb v) done) eqn:Ex; [discriminate|].
+  destruct (nth_error (vls s) v) as [g|] eqn:En; [|discriminate].
+  assert (s' = mkSt (s_cfg s) (txl s) (cml s) (set_nth (vls s) v (f_sync g)) (ahd s) (ahc s) (committed s)
+                    (calh s) (pbuf s) (palh s) (pts s) (acked s) (PV (v :: done)) (inflight s) (asize s)
                     (alatest s) (acnt s)) by congruence.
   subst s'. inv_fields I. rewrite Ep in Icph.
   constructor; cbn [s_cfg vls txl cml ahd ahc committed pbuf palh pts acked phase_ asize alatest acnt]; auto.
   - rewrite length_set_nth; auto.
-  - destruct Icph as (A & B & C & D & E'). repeat split; auto.
-    assert (i < length (vls s))%nat by (apply nth_error_Some; congruence). lia.
+  - destruct Icph as (A & B & C & (D1 & D2) & E'). repeat split; auto.
+    + constructor; auto. intros Hin.
+      assert (existsb (Nat.eqb v) done = true) by (apply existsb_exists; exists v; split; [auto|apply Nat.eqb_refl]).
+      congruence.
+    + constructor; auto. assert (v < length (vls s))%nat by (apply nth_error_Some; congruence). lia.
 Qed.
 
 Lemma step_OFlush nv s h d f n s' : Inv nv s h d -> step s (OFlush f n) = Ok s' -> Inv nv s' h d.
@@ -224,15 +228,26 @@ Proof.
 Qed.
 
 Lemma step_OSyncTx nv s h d s' : Inv nv s h d -> step s OSyncTx = Ok s' ->
-  Inv nv s' h (precommitted s).
+  Inv nv s' h (precommitted s) /\
+  (if c_ahtsync (s_cfg s) then aht_sync (aht_of s) else Ok (aht_of s)) = Ok (aht_of s') /\
+  asize s' = asize s /\ vls s' = vls s /\ inflight s' = inflight s /\ txl s' = f_sync (txl s).
 Proof.
   intros I E. unfold Protocol.step in E.
   destruct (phase_ s) as [|i|t] eqn:Ep; try discriminate.
-  destruct (Nat.eqb i (length (vls s))); cbn [negb] in E; [|discriminate].
+  destruct (Nat.eqb (length i) (length (vls s))); cbn [negb] in E; [|discriminate].
+  destruct (if c_ahtsync (s_cfg s) then aht_sync (aht_of s) else Ok (aht_of s)) as [a| |] eqn:Ea;
+    cbn [bind] in E; try discriminate.
   destruct (f_setoffset (cml s) (44 * committed s)) as [c1|] eqn:Es; [|discriminate].
-  assert (s' = mkSt (s_cfg s) (f_sync (txl s)) (f_append c1 (pbuf_entries (pbuf s))) (vls s) (ahd s) (ahc s)
+  assert (s' = mkSt (s_cfg s) (f_sync (txl s)) (f_append c1 (pbuf_entries (pbuf s))) (vls s) (a_d a) (a_c a)
                     (committed s) (calh s) (pbuf s) (palh s) (pts s) (acked s) (PC (precommitted s))
-                    (inflight s) (asize s) (alatest s) (acnt s)) by congruence.
+                    (inflight s) (a_size a) (a_latest a) (a_cnt a)) by congruence.
+  assert (IAa: AInv (c_thld (s_cfg s)) a /\ a_size a = asize s).
+  { destruct (v_aht _ _ _ _ I) as (IA & _). destruct (c_ahtsync (s_cfg s)).
+    - destruct (aht_sync_AInv _ _ IA) as (a' & Ea' & IA' & Sz & _).
+      assert (a' = a) by congruence. subst a'. split; [exact IA'|exact Sz].
+    - assert (a = aht_of s) by congruence. subst a. split; [exact IA|reflexivity]. }
+  destruct IAa as (IAa & Sza).
+  split; [|subst s'; cbn [asize vls inflight txl]; repeat split; auto; destruct a; reflexivity].
   subst s'. inv_fields I. rewrite Ep in Icph. destruct Icph as (P1 & P2 & P3 & P4 & P5).
   destruct Itdur as (T1 & T2 & T3 & T4). destruct Itview as (V1 & V2 & V3).
   destruct (f_sync_spec (txl s) Itwf) as (Y1 & Y2 & Y3 & Y4).
@@ -262,7 +277,7 @@ Proof.
     rewrite S5, P1, S10. cbn [app].
     repeat split; auto; try lia; try (apply stream_tail; intros _; exact Bc1); try apply concat_w_tail.
     unfold f_offset. cbn [f_append bufoff buf]. rewrite S10. cbn [app]. rewrite Bc1, Lsk. lia.
-  - auto.
+  - split; [destruct a; exact IAa|]. rewrite Sza. destruct Iaht as (_ & B). exact B.
 Qed.
 
 Lemma step_OSyncC nv s h d s' : Inv nv s h d -> step s OSyncC = Ok s' ->
